@@ -33,21 +33,21 @@ class Hash(enum.Enum):
 # enum values themselves using enum definition tricks, but... this seems
 # simpler.
 _HASH_REGEXES = {
-    Hash.MD5: r"^[a-f0-9]{32}$",
-    Hash.MD6: r"^[a-f0-9]{32}|[a-f0-9]{40}|[a-f0-9]{56}|[a-f0-9]{64}|[a-f0-9]{96}|[a-f0-9]{128}$",
-    Hash.RIPEMD160: r"^[a-f0-9]{40}$",
-    Hash.SHA1: r"^[a-f0-9]{40}$",
-    Hash.SHA224: r"^[a-f0-9]{56}$",
-    Hash.SHA256: r"^[a-f0-9]{64}$",
-    Hash.SHA384: r"^[a-f0-9]{96}$",
-    Hash.SHA512: r"^[a-f0-9]{128}$",
-    Hash.SHA3224: r"^[a-f0-9]{56}$",
-    Hash.SHA3256: r"^[a-f0-9]{64}$",
-    Hash.SHA3384: r"^[a-f0-9]{96}$",
-    Hash.SHA3512: r"^[a-f0-9]{128}$",
-    Hash.SSDEEP: r"^[a-z0-9/+:.]{1,128}$",
-    Hash.WHIRLPOOL: r"^[a-f0-9]{128}$",
-    Hash.TLSH: r"^[a-f0-9]{70}$",
+    Hash.MD5: r"^[a-f0-9]{32}\Z",
+    Hash.MD6: r"^(?:[a-f0-9]{32}|[a-f0-9]{40}|[a-f0-9]{56}|[a-f0-9]{64}|[a-f0-9]{96}|[a-f0-9]{128})\Z",
+    Hash.RIPEMD160: r"^[a-f0-9]{40}\Z",
+    Hash.SHA1: r"^[a-f0-9]{40}\Z",
+    Hash.SHA224: r"^[a-f0-9]{56}\Z",
+    Hash.SHA256: r"^[a-f0-9]{64}\Z",
+    Hash.SHA384: r"^[a-f0-9]{96}\Z",
+    Hash.SHA512: r"^[a-f0-9]{128}\Z",
+    Hash.SHA3224: r"^[a-f0-9]{56}\Z",
+    Hash.SHA3256: r"^[a-f0-9]{64}\Z",
+    Hash.SHA3384: r"^[a-f0-9]{96}\Z",
+    Hash.SHA3512: r"^[a-f0-9]{128}\Z",
+    Hash.SSDEEP: r"^[a-z0-9/+:.]{1,128}\Z",
+    Hash.WHIRLPOOL: r"^[a-f0-9]{128}\Z",
+    Hash.TLSH: r"^[a-f0-9]{70}\Z",
 }
 
 
